@@ -11,12 +11,15 @@ Open Scope N_scope.
 Theorem client_kind_tags : KIND_CHUNK = 1 /\ KIND_SCRATCHPAD = 5 /\ KIND_CHUNK <> KIND_SCRATCHPAD.
 Proof. exact kind_tags_pinned. Qed.
 
-(* content returned for an address hashes to that address, whatever the holders replied *)
+(* A reply is any Ok(record) / Err(..): the record's own key (r_key) is part of it and universally
+   quantified everywhere below -- the holders choose it; `a`, `addr`, `pk` are what was REQUESTED. *)
+
+(* content returned for an address hashes to the requested address, whatever the holders replied *)
 Theorem chunk_get_authentic : forall (H : bytes -> N) rp a c, chunk_get H rp a = inl c -> H c = a.
 Proof. exact chunk_get_authentic_lemma. Qed.
 
-(* ... and the requested chunk, honestly served, is returned *)
-Theorem chunk_get_honest_accepted : forall (H : bytes -> N) c, chunk_get H (ROk (chunk_record c)) (H c) = inl c.
+(* ... and the requested chunk, honestly served, is returned (whatever key the record carries) *)
+Theorem chunk_get_honest_accepted : forall (H : bytes -> N) k c, chunk_get H (ROk (chunk_record k c)) (H c) = inl c.
 Proof. exact chunk_get_honest. Qed.
 
 (* "validly signed": the pad carries a signature made by its owner over exactly its counter and
@@ -27,37 +30,37 @@ Theorem validly_signed_meaning : forall p,
 Proof. exact is_valid_iff. Qed.
 
 (* a vault pad handed to its owner is owned by the requested key and validly signed by it *)
-Theorem vault_signed_by_owner : forall rp pk p,
-  get_vault rp pk = inl p -> p_owner p = pk /\ is_valid p = true.
+Theorem vault_signed_by_owner : forall key rp pk p,
+  get_vault key rp pk = inl p -> p_owner p = pk /\ is_valid p = true.
 Proof. exact vault_signed_by_owner_lemma. Qed.
 
 (* ... and no scratchpad version received that the requested key owns and signed has a higher counter *)
-Theorem vault_highest_valid_counter : forall rp pk p,
-  get_vault rp pk = inl p ->
+Theorem vault_highest_valid_counter : forall key rp pk p,
+  get_vault key rp pk = inl p ->
   forall q, In q (received rp) -> authentic pk q = true -> p_counter q <= p_counter p.
 Proof. exact vault_highest_lemma. Qed.
 
 (* when nothing received is authentic (whatever record it hides in) the read fails *)
-Theorem vault_fails_without_authentic : forall rp pk,
+Theorem vault_fails_without_authentic : forall key rp pk,
   (forall q, In q (all_pads rp) -> authentic pk q = false) ->
-  (exists e, get_vault rp pk = inr e) /\ (exists e, fetch_and_decrypt_vault rp pk = VErr e).
-Proof. intros rp pk N. split; [exact (vault_fails_lemma rp pk N)|exact (fetch_fails_lemma rp pk N)]. Qed.
+  (exists e, get_vault key rp pk = inr e) /\ (exists e, fetch_and_decrypt_vault key rp pk = VErr e).
+Proof. intros key rp pk N. split; [exact (vault_fails_lemma key rp pk N)|exact (fetch_fails_lemma key rp pk N)]. Qed.
 
 (* honest holders are still served: one authentic version ... *)
-Theorem vault_honest_accepted : forall pk p,
-  authentic pk p = true -> get_vault (ROk (pad_record p)) pk = inl p.
+Theorem vault_honest_accepted : forall key k pk p,
+  authentic pk p = true -> get_vault key (ROk (pad_record k p)) pk = inl p.
 Proof. exact get_vault_honest. Qed.
 
 (* ... or a split made only of well-formed authentic versions (any number, any order) *)
-Theorem vault_split_complete : forall pk m q,
+Theorem vault_split_complete : forall key pk m q,
   Forall (fun r => r_hdr r = Some KIND_SCRATCHPAD /\ exists p, parse_pad r = Some p /\ authentic pk p = true) m ->
-  In q (pads_of m) -> exists p, get_vault (RErr (GSplit m)) pk = inl p.
+  In q (pads_of m) -> exists p, get_vault key (RErr (GSplit m)) pk = inl p.
 Proof. exact get_vault_split_complete. Qed.
 
 (* what fetch_and_decrypt_vault returns was encrypted to the requested key inside a pad that key
    owns and signed, the newest such version received *)
-Theorem fetch_and_decrypt_authentic : forall rp sk m e,
-  fetch_and_decrypt_vault rp sk = VOk m e ->
+Theorem fetch_and_decrypt_authentic : forall key rp sk m e,
+  fetch_and_decrypt_vault key rp sk = VOk m e ->
   exists p, In p (all_pads rp) /\ authentic sk p = true /\ c_to (p_ct p) = Some sk /\
             c_plain (p_ct p) = m /\ p_encoding p = e /\
             forall q, In q (received rp) -> authentic sk q = true -> p_counter q <= p_counter p.
@@ -75,3 +78,9 @@ Proof. exact data_get_public_unforgeable_lemma. Qed.
 
 Theorem injective_hash_exists : forall x y, inj_hash x = inj_hash y -> x = y.
 Proof. exact inj_hash_inj. Qed.
+
+(* comparing the recomputed address with the key carried by the returned record, instead of with the
+   requested address, would be unsound (the holders choose that key) *)
+Theorem chunk_get_vs_record_key_unsound :
+  exists (H : bytes -> N) rp a c, chunk_get_vs_record_key H rp a = inl c /\ H c <> a.
+Proof. exact chunk_get_vs_record_key_refuted. Qed.
